@@ -179,7 +179,11 @@ func sameAsStdlib(sc *scen.WScen, got []byte) bool {
 
 // sameAsStdlibAll: every destination of the history received exactly the bytes
 // the standard library's Writer emits for the same history (no faults).
-func sameAsStdlibAll(sc *scen.WScen) bool {
+func sameAsStdlibAll(sc *scen.WScen) bool { return sameAsStdlibSeg(sc, -1) }
+
+// sameAsStdlibSeg compares one destination (seg >= 0), the last one (-2) or
+// all of them (-1).
+func sameAsStdlibSeg(sc *scen.WScen, seg int) bool {
 	f := *sc
 	f.Guard, f.Fault = false, nil
 	frec, _ := runW(&f, true, false)
@@ -187,7 +191,13 @@ func sameAsStdlibAll(sc *scen.WScen) bool {
 	if frec.Panic != "" || srec.Panic != "" || frec.CtorErr != nil || srec.CtorErr != nil || len(frec.Segs) != len(srec.Segs) {
 		return false
 	}
+	if seg == -2 {
+		seg = len(frec.Segs) - 1
+	}
 	for i := range frec.Segs {
+		if seg >= 0 && i != seg {
+			continue
+		}
 		if !bytes.Equal(frec.Segs[i].Sink.Data, srec.Segs[i].Sink.Data) {
 			return false
 		}
